@@ -913,6 +913,9 @@ impl Exec {
                 let v: Vec<Entity> = (&ents).join().collect();
                 v
             };
+            for e in &got {
+                self.stats.trace.add(((e.id() as u64) << 32) | e.gen().id() as u64);
+            }
             let exp: Vec<Entity> = self
                 .model
                 .occ
@@ -971,6 +974,9 @@ impl Exec {
                 ));
             }
             let dump = self.slots[s].dump(self.w());
+            for (i, v) in &dump {
+                self.stats.trace.add(((*i as u64) << 40) ^ (v.0 << 20) ^ v.1 as u64);
+            }
             let exp_dump: Vec<(u32, V)> =
                 self.model.comps[s].iter().map(|(i, v)| (*i, *v)).collect();
             if dump != exp_dump {
@@ -1049,6 +1055,13 @@ impl Exec {
             let real = self.slots[s].read_events(self.w());
             let exp = self.model.take_expected_events(s);
             self.stats.events_checked += real.len() as u64;
+            for ev in &real {
+                self.stats.trace.add(match ev {
+                    Ev::Ins(i) => 0x1000_0000 | *i as u64,
+                    Ev::Mod(i) => 0x2000_0000 | *i as u64,
+                    Ev::Rem(i) => 0x3000_0000 | *i as u64,
+                });
+            }
             if !match_events(&real, &exp) {
                 return Err(self.viol(
                     &["C12"],
